@@ -2272,7 +2272,14 @@ impl<'store> AnnotationStore {
                     unreachable!("unknown query type");
                 }
             } else {
-                unreachable!("mutable query must have subquery");
+                //(nothing to add to or delete: a request that can not be carried out is refused, not a reason to panic)
+                Err(StamError::QuerySyntaxError(
+                    format!(
+                        "{} query must have a subquery that selects what to target",
+                        query.querytype().as_str()
+                    ),
+                    "",
+                ))
             }
         }
     }
